@@ -105,7 +105,8 @@ class WARCRecorder(object):
 
     def _check_journals_and_maybe_raise(self):
         '''Check if any journal files exist and raise an error.'''
-        files = list(glob.glob(self._prefix_filename + '*-wpullinc'))
+        files = list(glob.glob(
+            glob.escape(self._prefix_filename) + '*-wpullinc'))
 
         if files:
             raise OSError('WARC file {} is incomplete.'.format(files[0]))
